@@ -48,7 +48,7 @@ func (c17) Rule() string {
 		"real server: 2..3 clients attached to one document, one holds a WatchDocument stream (established = initialization " +
 		"message read), the others push changes by PushPull with seeded gaps; the stream must deliver a DOCUMENT_CHANGED event " +
 		"of the pusher after each push returned (within 5 s), and nothing from the watcher itself. Non-trivial = >=1 judged " +
-		"(publish, subscription) pair and >=1 stalled or early-unsubscribing subscriber. The watch family pushes through sync, push-only sync, Detach and Attach; sdk-watch family: real clients in realtime mode, an edit must reach the peers' documents within 5 s without any Sync call. Churn family (every 8th case): on one PubSub the only watcher of a document unsubscribes while the next one subscribes (released together, 2500 rounds per case), then a DocChanged is published: the new watcher, whose Subscribe returned before the publish, must receive it (or a closed channel) and ClientIDs must list exactly it."
+		"(publish, subscription) pair and >=1 stalled or early-unsubscribing subscriber. The watch family pushes through sync, push-only sync, Detach and Attach; sdk-watch family: real clients in realtime mode, an edit must reach the peers' documents within 5 s without any Sync call. Churn family (every 8th case): on one PubSub the only watcher of a document unsubscribes while the next one subscribes (released together, 8000 rounds per case): ClientIDs must then list exactly the new watcher, and every 400th round a DocChanged is published that the current watcher must receive (or a closed channel)."
 }
 func (c17) Assumptions() []string {
 	return []string{"the delivery bound (4 s / 5 s) is wall clock; it is 40-50 flush windows and is only applied to subscriptions that stay that long after the publish",
@@ -62,7 +62,7 @@ func (c17) NumCases(tier string, _ int64) int {
 }
 func (c17) Exhaustive(string) bool { return false }
 func (c17) Floors(string) []runner.Floor {
-	return []runner.Floor{{Stat: "publish_subscription_pairs_judged", Min: 1500}, {Stat: "events_received", Min: 2000}, {Stat: "stalled_subscriptions", Min: 30}, {Stat: "watch_pushes_judged", Min: 40}, {Stat: "sdk_realtime_deliveries_judged", Min: 30}, {Stat: "churn_rounds_judged", Min: 20000}}
+	return []runner.Floor{{Stat: "publish_subscription_pairs_judged", Min: 1500}, {Stat: "events_received", Min: 1500}, {Stat: "stalled_subscriptions", Min: 30}, {Stat: "watch_pushes_judged", Min: 40}, {Stat: "sdk_realtime_deliveries_judged", Min: 30}, {Stat: "churn_rounds_judged", Min: 20000}}
 }
 
 type c17Worker struct{ *simWorker }
